@@ -159,6 +159,7 @@ class MutatorFlow(PyFlow):
             self.params.append(a.kwarg.arg)
         self.selfname = self.params[0] if self.params else "self"
         self.mutations = []     # (mutator name, node line)
+        self.mutation_calls = []
         self.notifies = []      # cfg node ids containing a notify call
         self.validations = 0
         self.checked_args = 0
@@ -358,6 +359,12 @@ class MutatorFlow(PyFlow):
         if ev == "M":
             m, args, kws = self.builtin_mutation(e)
             self.mutations.append((m, getattr(e, "lineno", 0)))
+            self.mutation_calls.append((m, list(args), list(kws), e, phase))
+            if phase != PRE:
+                self.flag(("second-mutation", m),
+                          f"a second underlying mutation `{norm(e)[:60]}` on "
+                          f"one path: a single operation must map to a "
+                          f"single built-in operation")
             spec = ELEMENT_ARGS[self.kind].get(m)
             if spec is not None:
                 if spec == "*":
@@ -1297,3 +1304,77 @@ def _check_validator_method(res, mod, obj, meth, inner, key):
                    f"result of <trait>.{inner}.validate(object, name, {valn})")
     res.oblige(validated_returns >= 1, f"{key}:{meth.name}:validates",
                mod.loc(meth), f"{meth.name} never calls {inner}.validate")
+
+
+# ---------------------------------------------------------------------------
+# refinement: every override delegates to the same built-in operation
+
+# Overrides that deliberately perform a different built-in operation.
+DIFFERENT_OP = {
+    ("dict", "setdefault"): ("__setitem__",
+                             "dict.setdefault cannot take a validated key "
+                             "that differs from the key tested; the absent "
+                             "case is a plain store of validated key/value"),
+}
+
+
+def refine_rule(kind):
+    prop = PROP_OF[kind]
+
+    @rule(f"{prop}.same-operation", [prop],
+          f"each Trait{kind.capitalize()} mutator performs exactly the "
+          f"built-in operation it overrides, with the positional (index / key "
+          f"/ count) arguments passed through unchanged")
+    def _r(ctx, res, kind=kind):
+        for k, m, fl in analyse_mutators(ctx):
+            if k != kind or m == "__init__":
+                continue
+            res.instance(fl.qualname, fl.module.loc(fl.func),
+                         operations=sorted({c[0] for c in fl.mutation_calls}))
+            want = DIFFERENT_OP.get((kind, m), (m,))[0]
+            params = fl.params[1:]
+            elem = ELEMENT_ARGS[kind].get(want)
+            seen = set()
+            for name, args, kws, call, phase in fl.mutation_calls:
+                if id(call) in seen:
+                    continue
+                seen.add(id(call))
+                res.oblige(name == want,
+                           f"{fl.qualname}:operation:{name}",
+                           fl.module.loc(call),
+                           f"{fl.qualname} performs the built-in "
+                           f"{kind}.{name} where {kind}.{want} is overridden: "
+                           f"results, exceptions and edge cases of the "
+                           f"built-in {want} are no longer inherited")
+                if name != want or (kind, m) in DIFFERENT_OP:
+                    continue
+                # positional pass-through of the non-element arguments
+                for i, a in enumerate(args):
+                    if elem == "*" or (elem and i in elem):
+                        continue
+                    if isinstance(a, ast.Starred):
+                        ok = i < len(params) and norm(a.value) == params[i]
+                    else:
+                        ok = i < len(params) and norm(a) == params[i]
+                    res.oblige(ok, f"{fl.qualname}:passthrough:{i}",
+                               fl.module.loc(call),
+                               f"argument {i} of the underlying {kind}.{name} "
+                               f"is `{norm(a)}`, not the caller's "
+                               f"`{params[i] if i < len(params) else '?'}`: "
+                               f"out-of-range / unusual indices would no "
+                               f"longer behave (or fail) like the built-in")
+                for kw in kws:
+                    res.oblige(kw.arg in params and norm(kw.value) == kw.arg,
+                               f"{fl.qualname}:passthrough:{kw.arg}",
+                               fl.module.loc(call),
+                               f"keyword {kw.arg}= of the underlying call is "
+                               f"`{norm(kw.value)}`")
+            for key, msg, loc, path in [f for f in fl.findings()
+                                        if f[0][0] == "second-mutation"]:
+                res.violation(f"{fl.qualname}:second-mutation", loc, msg, path)
+        res.floor(len(MUTATORS[kind]))
+    return _r
+
+
+for _k in ("list", "dict", "set"):
+    refine_rule(_k)
